@@ -368,6 +368,10 @@ def check_exact(ctx):
             ok = norm(calls[0].func.value) == runner and (args == [f"{t}.circuit", f"{t}.operator"] or set(args) == {f"circuit={t}.circuit", f"operator={t}.operator"}) and not v.generators[0].ifs and _reorders(v.generators[0].iter) is None
             detail = f"{short(calls[0])}: the simulator takes (circuit, operator) of the same task"
             name = nm
+    # exact values do not depend on shot counts: the helpers that classify tasks by `number_of_shots` (a task with 0 shots is "not to be
+    # measured" and valued 0) have no business on the exact path
+    shot_based = [c for c in body_walk(f.node) if isinstance(c, ast.Call) and (dotted(c.func) or "").split(".")[-1] in ("split_estimation_tasks_to_measure", "evaluate_non_measured_estimation_tasks")]
+    ctx.check(not shot_based, R5, f.key + ":no-shot-based-split", "every task is valued by the simulator; nothing is classified by its shot count", f"calculate_exact_expectation_values routes tasks through {short(shot_based[0], 70) if shot_based else ''}: that split treats a task with number_of_shots == 0 as not-to-be-run and values it 0, but an exact expectation value does not depend on the shot count -- a non-constant operator with zero shots gets 0.0 instead of the state's quadratic form", f"{f.module.relpath}:{shot_based[0].lineno}" if shot_based else f)
     if name is None and detail == "no pass over the tasks":
         ctx.undecided(R5, f.key + ":per-task", "cannot find a comprehension over the tasks calling get_exact_expectation_values", f)
     else:
